@@ -77,7 +77,7 @@ fn report<V: IV>(cx: &mut Cx, c: &Value, sp: &str, rot: usize, args: Value, exp:
         (a, b) => a == b,
     };
     if !ok {
-        cx.rep.mismatch(json!({"prop": "C13", "ty": V::NAME, "op": c["op"], "kind": c["kind"], "spelling": sp,
+        cx.rep.mismatch(json!({"prop": hx::prop_name("C13"), "ty": V::NAME, "op": c["op"], "kind": c["kind"], "spelling": sp,
             "rot": rot, "profile": cx.prof, "args": args, "exp": format!("{:?}", exp), "got": format!("{:?}", got), "case": c}));
     }
 }
@@ -246,7 +246,7 @@ fn run_cmp<V: IV>(cx: &mut Cx, c: &Value) {
             cx.rep.evals += 1;
             let gv: Vec<Option<i128>> = g.iter().map(|b| Some(*b as i128)).collect();
             if gv != le {
-                cx.rep.mismatch(json!({"prop": "C13", "ty": V::NAME, "op": op, "kind": "b", "spelling": sp, "rot": r,
+                cx.rep.mismatch(json!({"prop": hx::prop_name("C13"), "ty": V::NAME, "op": op, "kind": "b", "spelling": sp, "rot": r,
                     "args": [la, lb], "exp": format!("{:?}", le), "got": format!("{:?}", gv), "case": c}));
             }
         }
@@ -267,7 +267,7 @@ fn main() {
     let mut cx = Cx { rep: &mut rep, prof, only_ty: std::env::var("HX_ONLY_TY").ok() };
     let mut n = 0u64;
     read_cases(&args[1], "CASE", |c| {
-        if c["fam"] != "int" {
+        if c["fam"] != "int" || !hx::kind_enabled(c["kind"].as_str().unwrap(), c["op"].as_str().unwrap()) {
             return;
         }
         n += 1;
